@@ -85,8 +85,10 @@ def lpNext (rem : Bytes) : Option (Bytes × Bytes) :=
       | none => none
       | some (v, _) => some (lpInt 64 (ofLE v), rem.drop (lpSkip 9))
     else
-      -- unknown encoding byte: Go yields 12345678900000000+byte and does not advance
-      some (natToDec (12345678900000000 + c), rem)
+      -- 0xF5..0xFE are not element encodings, 0xFF is the end marker: panic
+      -- ("invalid element encoding"; repaired in /repo 53af0a3 — the cursor used
+      -- not to advance and the stream expansion never ended)
+      none
 
 /-- `NewListpack`: `(numElements, rem after the 6-byte header)` -/
 def lpNew (data : Bytes) : Option (Nat × Bytes) :=
